@@ -635,3 +635,61 @@ def install_parse_hook():
         COMPOSITE_TRACER.set_postop_callback(post_op, frame)
 
     oi.BuildStringInterceptor.trace_op = trace_op
+
+
+def install_fast_pxml():
+    """Run pxml's structural operations (navigation, insertion, concrete parsing, XPath without value
+    predicates) with tracing off: they only move element objects around and compare concrete tags;
+    attribute values / text (the only places symbolic values live) are passed through untouched.
+    Purely a speed-up: semantics are those of the traced code."""
+    import functools
+
+    import lxml.etree as le
+
+    E = le._Element
+
+    def untraced(fn):
+        @functools.wraps(fn)
+        def w(*a, **k):
+            with NoTracing():
+                return fn(*a, **k)
+
+        return w
+
+    def untraced_gen(fn):
+        @functools.wraps(fn)
+        def w(*a, **k):
+            with NoTracing():
+                items = list(fn(*a, **k))
+            return iter(items)
+
+        return w
+
+    for name in ("find", "findall", "append", "insert", "remove", "index", "getparent", "getnext", "getprevious",
+                 "addprevious", "addnext", "replace", "extend", "__len__", "__getitem__", "__contains__", "getchildren",
+                 "_px_detach", "_px_adopt", "_px_check_new_child", "_px_root", "__deepcopy__", "makeelement"):
+        setattr(E, name, untraced(getattr(E, name)))
+    for name in ("iter", "iterchildren", "iterdescendants", "itersiblings", "iterancestors", "__iter__", "__reversed__"):
+        setattr(E, name, untraced_gen(getattr(E, name)))
+    E.nsmap = property(untraced(E.nsmap.fget))
+    le.XMLParser.makeelement = untraced(le.XMLParser.makeelement)
+
+    orig_xpath = E.xpath
+
+    def xpath(self, expr, namespaces=None, **kw):
+        if "=" in expr:  # value predicate: must see symbolic attribute values
+            return orig_xpath(self, expr, namespaces, **kw)
+        with NoTracing():
+            return orig_xpath(self, expr, namespaces, **kw)
+
+    E.xpath = xpath
+
+    orig_concrete = le._parse_concrete
+
+    def parse_concrete(text, parser):
+        with NoTracing():
+            if isinstance(text, core.CrossHairValue):
+                text = realize(text)
+            return orig_concrete(text, parser)
+
+    le._parse_concrete = parse_concrete
